@@ -127,7 +127,7 @@ Fixpoint dty_ok (n : nat) (t : dty) : bool :=
 
 Definition fld_ok (n : nat) (f : fld) : bool :=
   dty_ok n (fl_ty f)
-  && (0 <=? fl_min f)
+  && (0 <=? fl_min f) && ext_leb (Fin 1) (fl_max f)
   && match fl_kind f with
      | FAttr => match fl_ty f with DLeaf _ => true | _ => false end
                 && ext_leb (fl_max f) (Fin 1) && is_none (fl_default f)
@@ -292,6 +292,8 @@ Record resolves (S : schema) (U : univ) : Prop := mkresolves {
   rs_klass : forall c cl, get_klass U c = Some cl ->
     exists d, find_doc S (k_ns cl) = Some d /\ d_qualified d = true
               /\ find_type S (k_ns cl, k_name cl) = Some (TComplex (cdef_of U cl));
+  rs_elem : forall c cl, get_klass U c = Some cl ->
+    exists d, find_doc S (k_ns cl) = Some d /\ assoc_text (k_name cl) (d_elems d) = Some (k_ns cl, k_name cl);
   rs_leaf : forall st, In (DLeaf st) (tys_of U) -> published st = true ->
     exists q, st_qn st = Some q
               /\ find_type S q = Some (TSimple (mksdef (snd q) (xs_ns, base_name (st_base st)) (restriction_of st)));
